@@ -106,6 +106,7 @@ func VerifC12_ReuseInvisible() {
 //
 //verif:reach checked
 //verif:paths 50000
+//verif:thorough paths 300000
 func VerifC12_LiveRecordsDoNotAlias() {
 	defer func(v int) { defs.InputLogMinRecordBytesToPool = v }(defs.InputLogMinRecordBytesToPool)
 	sym.PoolNondet(true)
@@ -131,6 +132,25 @@ func VerifC12_LiveRecordsDoNotAlias() {
 	rd := p.Parse(lineD, now)
 	sym.Assert(rd != nil && rd != rc, "D is a different record")
 	sym.Assert(verifFieldsEqual(rc.Fields, before), "parsing D leaves the live record C intact")
+	if sym.Tier() > 0 {
+		// thorough: C is released while D lives on; a further record (long or short) must not disturb D
+		beforeD := verifCopyFields(rd.Fields)
+		alloc.Release(rc)
+		for i := 0; i < 1; i++ {
+			var line []byte
+			if sym.Bool("longAfter") {
+				line = verifLine("e", verifLineA, 2)
+			} else {
+				line = verifLine("e", verifLineB, 1)
+			}
+			re := p.Parse(line, now)
+			sym.Assert(re != nil && re != rd, "E is a different record")
+			sym.Assert(verifFieldsEqual(rd.Fields, beforeD), "records parsed after C's release leave the live record D intact")
+			if sym.Bool("releaseE") {
+				alloc.Release(re)
+			}
+		}
+	}
 	sym.Reach("checked")
 }
 
@@ -174,6 +194,7 @@ func VerifC12_ReleaseResets() {
 //
 //verif:reach checked
 //verif:paths 50000
+//verif:thorough paths 300000
 func VerifC09_ParsedRecordStaysFaithful() { VerifC12_LiveRecordsDoNotAlias() }
 
 // VerifC09_FaithfulAfterAnyHistory: parsing after an arbitrary pool history gives the fields a fresh parser gives.
@@ -181,3 +202,11 @@ func VerifC09_ParsedRecordStaysFaithful() { VerifC12_LiveRecordsDoNotAlias() }
 //verif:reach compared reused
 //verif:paths 50000
 func VerifC09_FaithfulAfterAnyHistory() { VerifC12_ReuseInvisible() }
+
+// VerifC07_NeighboursNotCorrupted: a short or malformed record between large
+// ones never corrupts the records that surround it (the C12 aliasing scenario read for C07).
+//
+//verif:reach checked
+//verif:paths 50000
+//verif:thorough paths 300000
+func VerifC07_NeighboursNotCorrupted() { VerifC12_LiveRecordsDoNotAlias() }
